@@ -282,7 +282,7 @@ impl<'a> LeafNode<'a> {
         let value_data_start = value_start + varint_size;
 
         ensure!(
-            value_data_start + value_len as usize <= PAGE_SIZE,
+            value_len <= PAGE_SIZE as u64 && value_data_start + value_len as usize <= PAGE_SIZE,
             "value extends beyond page boundary"
         );
 
@@ -453,7 +453,7 @@ impl<'a> LeafNodeMut<'a> {
         let value_data_start = value_start + varint_size;
 
         ensure!(
-            value_data_start + value_len as usize <= PAGE_SIZE,
+            value_len <= PAGE_SIZE as u64 && value_data_start + value_len as usize <= PAGE_SIZE,
             "value extends beyond page boundary"
         );
 
